@@ -18,7 +18,7 @@ Definition ev_eqb a b :=
   end.
 Definition errk_eqb a b :=
   match a, b with
-  | XNil, XNil | XFault, XFault | XHook, XHook | XOther, XOther => true
+  | XNil, XNil | XFault, XFault | XHook, XHook | XOther, XOther | XPre, XPre => true
   | _, _ => false
   end.
 Definition not_mark (e : ev) := match e with EMark => false | _ => true end.
@@ -33,7 +33,10 @@ Record case := mk_case {
   o_evs : list ev; o_err : errk;
   o_wrapped : bool;                (* informational: enclosing callbacks re-add the nested error *)
   o_match : list bool;             (* final dump = dump after the j-th COMMIT of the fault-free run *)
-  o_in_use : Z; o_open_tx : Z
+  o_in_use : Z; o_open_tx : Z;
+  (* the operation was called on a handle that already carried an error (AddError on the handle, or a
+     scope that vetoes the write); c_free is the fault-free run of the same operation without it *)
+  c_pre : bool
 }.
 
 Definition model_agrees (c : case) : bool :=
@@ -41,7 +44,8 @@ Definition model_agrees (c : case) : bool :=
   match split_pipes (c_free c) None with
   | None => false    (* the operation is not a sequence of BEGIN .. COMMIT pipelines *)
   | Some pipes =>
-    let s := run_op (fault_at (c_dfault c)) (fault_at (c_hfault c)) pipes [] in
+    let s := if c_pre c then run_op_pre (fault_at (c_dfault c)) (fault_at (c_hfault c)) [XPre] pipes []
+             else run_op (fault_at (c_dfault c)) (fault_at (c_hfault c)) pipes [] in
     list_eqb ev_eqb (rev (s_out s)) (filter not_mark (o_evs c))
     && errk_eqb (last (s_err s) XNil) (o_err c)
     && nth (s_commits s) (o_match c) false
@@ -53,7 +57,9 @@ Definition model_agrees (c : case) : bool :=
    connection stays checked out *)
 Definition spec_holds (c : case) : bool :=
   Z.eqb (o_in_use c) 0 && Z.eqb (o_open_tx c) 0
-  && if c_natural c
+  && if c_pre c
+     then nth 0 (o_match c) false && errk_eqb (o_err c) XPre   (* refused before it started: unchanged, that error reported *)
+     else if c_natural c
      then nth 0 (o_match c) false && negb (errk_eqb (o_err c) XNil)   (* failed by itself: unchanged, reported *)
      else match filter ev_failed (o_evs c) with
      | [] => errk_eqb (o_err c) XNil && last (o_match c) false
